@@ -356,6 +356,100 @@ def mutated_tree(rng, g, T, v):
     return None
 
 
+def _leaf_pool():
+    """leaf types with pairwise different outermost tags, spread over the universal, application,
+    context and private classes so that any split of them interleaves in the DER/CER SET order"""
+    pool = [('bool',), ('int',), ('bits',), ('octs',), ('null',), ('oid',), ('enum',),
+            ('str', 'UTF8String'), ('str', 'IA5String'), ('str', 'PrintableString'), ('str', 'BMPString')]
+    simple = [('bool',), ('int',), ('bits',), ('octs',), ('null',), ('oid',), ('str', 'UTF8String')]
+    for cls in (64, 128, 192):
+        for n in (0, 1, 2, 3, 30, 31):
+            pool.append((cls, n, simple))
+    return pool
+
+
+def set_choice_type(rng):
+    """SET { untagged CHOICE nested 2-3 levels deep, ..., siblings }: the alternatives of the CHOICE
+    tree and the sibling members are drawn from one shuffled pool of distinctly tagged leaves, so
+    sibling tags fall between the tags of the alternatives.  -> (type, [(member index, path), ...])"""
+    pool = _leaf_pool()
+    rng.shuffle(pool)
+
+    def leaf():
+        x = pool.pop()
+        if len(x) == 3 and isinstance(x[0], int):
+            cls, n, simple = x
+            return (rng.choice(['imp', 'exp']), (cls, 0, n), rng.choice(simple))
+        return x
+
+    def tree(depth, force_nested):
+        n = rng.randint(2, 3)
+        nested_at = rng.randrange(n) if force_nested and depth > 1 else None
+        alts = []
+        for i in range(n):
+            if depth > 1 and (i == nested_at or rng.random() < .25):
+                alts.append(tree(depth - 1, depth - 1 > 1 and rng.random() < .5))
+            else:
+                alts.append(leaf())
+        return ('choice', alts)
+
+    members = [tree(rng.choice([2, 2, 3]), True)]
+    if rng.random() < .3:
+        members.append(tree(2, rng.random() < .5))
+    for _ in range(rng.randint(1, 3)):
+        members.append(leaf())
+    rng.shuffle(members)
+    fs = []
+    for m in members:
+        fs.append((rng.choice(['req', 'req', 'req', 'opt']) if m[0] != 'choice' else 'req', m))
+    T = ('set', fs)
+
+    def paths(t):
+        if t[0] != 'choice':
+            return [()]
+        return [(i,) + r for i, a in enumerate(t[1]) for r in paths(a)]
+
+    sel = [(k, pth) for k, (_, m) in enumerate(fs) if m[0] == 'choice' for pth in paths(m)]
+    return T, sel
+
+
+def set_choice_cases(ctx, g, n):
+    """[(T, v, how)]: for n generated SET types, every leaf alternative of every CHOICE member chosen in turn"""
+    out = []
+
+    def val_at(t, pth):
+        if t[0] != 'choice':
+            return g.val(t)
+        if pth:
+            return ('ch', pth[0], val_at(t[1][pth[0]], pth[1:]))
+        i = ctx.rng.randrange(len(t[1]))
+        return ('ch', i, val_at(t[1][i], ()))
+
+    for _ in range(n):
+        T, sel = set_choice_type(ctx.rng)
+        if not (gen.wf(T) and codec.any_positions_ok(T)):
+            ctx.stats['set_choice:rejected'] += 1
+            continue
+        wrap = ctx.rng.random()
+        for k, pth in sel:
+            slots = []
+            for j, (p, m) in enumerate(T[1]):
+                if j == k: slots.append(val_at(m, pth))
+                elif p == 'opt' and ctx.rng.random() < .3: slots.append(None)
+                else: slots.append(val_at(m, ()))
+            v = ('rec', slots)
+            how = 'set-choice member %d alternative %s' % (k, '.'.join(map(str, pth)))
+            if wrap < .2:
+                out.append((('seq', [('req', T), ('opt', ('int',))]), ('rec', [v, None]), how))
+            elif wrap < .35:
+                out.append((('seqof', T), ('list', [v]), how))
+            else:
+                out.append((T, v, how))
+        ctx.stats['set_choice:types'] += 1
+        ctx.stats['set_choice:depth%d' % max(len(pth) for _, pth in sel)] += 1
+    return out
+
+
 # ---------------------------------------------------------------------------------------------
 # one input through the implementation
 
@@ -421,80 +515,89 @@ def run(ctx):
                 'rel 1e-9), both steps against Model/Native.v; (b) types without ANY: encode(tree, asn1Spec) vs encode(value object) '
                 'for BER definite / indefinite / chunk in {1,2,3,7}, CER, DER, bare-value encoder against encode_py; model tie only: '
                 'the tree with one key removed (SEQUENCE/SET) or a second alternative added (CHOICE) through decoder and encoders.  '
+                'Plus SET-ordering cases: SET (bare, in a SEQUENCE, in a SEQUENCE OF) whose members are untagged CHOICEs nested 2-3 '
+                'levels and siblings, all leaves drawn from one shuffled pool of distinct tags over the four classes (so sibling '
+                'tags interleave with those of the alternatives), every leaf alternative chosen in turn, same comparisons (DER dynamic and '
+                'CER static order).  '
                 'non-trivial = constructed or tagged type; distinct by (type, value)')
     search_only = getattr(ctx, 'search_only', False)
     cases = codec.gen_cases(ctx, ctx.n(120, 2500), depth=3, reals='all')
     g = gen.Gen(ctx.rng, depth=3, reals='all')
     max_masks = 64
     exprs, meta = [], []
+    work = []
     for c in cases:
-        has_any = 'any' in gen.features(c.T)
-        has_real = 'real' in gen.features(c.T)
         for v, how in variants(ctx, g, c, max_masks):
-            T = c.T
-            try:
-                cval = U.coq_val(T, v)
-                U.build_value(T, v)
-            except Exception:
-                ctx.stats['unbuildable'] += 1
-                continue
-            if has_real and real_out_of_range(T, v):
-                ctx.stats['skipped:real_out_of_float_range'] += 1
-                continue
-            ctx.case((c.cty, cval), T[0] not in ('bool', 'int', 'null', 'octs'))
-            ctx.stats['variant:' + how.split(' ')[0]] += 1
-            m = {'T': T, 'v': v, 'how': how}
-            # (a)
-            e, d, fail, want = run_native(T, v)
-            if fail:
-                fid = classify_native(T, v)
-                ctx.prop_fail('native round trip: ' + fail, dict(m, part='native'), finding=fid)
-                ctx.stats['prop_fail:' + (fid or 'unexplained')] += 1
-            subs = []
-            if e[0] == 'ok':
-                p_lit = coq_py(e[1])
-                subs.append(('native encoder', 'py_code (to_native T v) (Ok p)'))
-                if d is not None:
-                    subs.append(('native decoder', 'natdec_code T (of_native T p) %s' % coq_res(d, U.coq_aval)))
-            else:
-                p_lit = 'PNone'
-                subs.append(('native encoder', 'py_code (to_native T v) (Err %s)' % e[1]))
-            # (b)
-            if not has_any and e[0] == 'ok':
-                for cd, defm, chunk in modes(ctx.rng):
-                    b, a, fail = run_equiv(T, v, cd, defm, chunk)
-                    if b is None:
-                        continue
-                    ctx.stats['mode:%s%s' % (cd, '' if cd != 'BER' else ('/def' if defm else '/indef') + ('/chunk' if chunk else ''))] += 1
-                    if fail:
-                        fid = classify_equiv(T, v, chunk if cd == 'BER' else (1000 if cd == 'CER' else 0))
-                        ctx.prop_fail('python-value encoding: ' + fail, dict(m, part='equiv', codec=cd, defMode=defm, maxChunkSize=chunk),
-                                      finding=fid)
-                        ctx.stats['prop_fail:' + (fid or 'unexplained')] += 1
-                    subs.append(('%s bare-value encoder defMode=%s maxChunkSize=%d' % (cd, defm, chunk),
-                                 'nbytes_code (encode_py %s %s %d T p) %s' % (cd, cbool(defm), chunk, I.coq_res_bytes(b))))
-            elif has_any:
-                ctx.stats['equiv_skipped:ANY'] += 1
-            # a tree with a key missing / one alternative too many: decoder and encoders against the model
-            pm_lit = 'PNone'
-            mt = mutated_tree(ctx.rng, g, T, v) if e[0] == 'ok' and not search_only else None
-            if mt is not None:
-                raw_m, what_m = mt
-                ctx.stats['mutated_tree:' + what_m.split(' ')[0]] += 1
-                pm_lit = coq_py(canon(raw_m))
-                dm = guarded(lambda: U.absval_top(nat_dec.decode(raw_m, asn1Spec=U.build_type(T)), T))
-                subs.append(('native decoder, %s' % what_m, 'natdec_code T (of_native T pm) %s' % coq_res(dm, U.coq_aval)))
-                if not has_any:
-                    for cd in ('BER', 'DER'):
-                        bm = I.run_encode(cd, raw_m, asn1Spec=U.build_type(T))
-                        subs.append(('%s bare-value encoder, %s' % (cd, what_m),
-                                     'nbytes_code (encode_py %s true 0 T pm) %s' % (cd, I.coq_res_bytes(bm))))
-            if not search_only:
-                exprs.append('let T := %s in let v := %s in let p := %s in let pm := %s in codes_max [%s]'
-                             % (c.cty, cval, p_lit, pm_lit, '; '.join(s for _, s in subs)))
-                meta.append((m, c.cty, cval, p_lit, pm_lit, subs))
-            if e[0] == 'ok' and len(ctx.samples) < 4 and T[0] in ('seq', 'set', 'choice', 'exp') and how != 'generated':
-                ctx.sample({'type': T, 'value': v, 'native': repr(nat_enc.encode(U.build_value(T, v)))[:300]})
+            work.append((c.T, c.cty, v, how))
+    # SET ordering: untagged CHOICE members nested 2-3 levels, every alternative in turn, interleaving sibling tags
+    for T, v, how in set_choice_cases(ctx, g, ctx.n(30, 500)):
+        work.append((T, U.coq_ty(T), v, how))
+    for T, cty, v, how in work:
+        has_any = 'any' in gen.features(T)
+        has_real = 'real' in gen.features(T)
+        try:
+            cval = U.coq_val(T, v)
+            U.build_value(T, v)
+        except Exception:
+            ctx.stats['unbuildable'] += 1
+            continue
+        if has_real and real_out_of_range(T, v):
+            ctx.stats['skipped:real_out_of_float_range'] += 1
+            continue
+        ctx.case((cty, cval), T[0] not in ('bool', 'int', 'null', 'octs'))
+        ctx.stats['variant:' + how.split(' ')[0]] += 1
+        m = {'T': T, 'v': v, 'how': how}
+        # (a)
+        e, d, fail, want = run_native(T, v)
+        if fail:
+            fid = classify_native(T, v)
+            ctx.prop_fail('native round trip: ' + fail, dict(m, part='native'), finding=fid)
+            ctx.stats['prop_fail:' + (fid or 'unexplained')] += 1
+        subs = []
+        if e[0] == 'ok':
+            p_lit = coq_py(e[1])
+            subs.append(('native encoder', 'py_code (to_native T v) (Ok p)'))
+            if d is not None:
+                subs.append(('native decoder', 'natdec_code T (of_native T p) %s' % coq_res(d, U.coq_aval)))
+        else:
+            p_lit = 'PNone'
+            subs.append(('native encoder', 'py_code (to_native T v) (Err %s)' % e[1]))
+        # (b)
+        if not has_any and e[0] == 'ok':
+            for cd, defm, chunk in modes(ctx.rng):
+                b, a, fail = run_equiv(T, v, cd, defm, chunk)
+                if b is None:
+                    continue
+                ctx.stats['mode:%s%s' % (cd, '' if cd != 'BER' else ('/def' if defm else '/indef') + ('/chunk' if chunk else ''))] += 1
+                if fail:
+                    fid = classify_equiv(T, v, chunk if cd == 'BER' else (1000 if cd == 'CER' else 0))
+                    ctx.prop_fail('python-value encoding: ' + fail, dict(m, part='equiv', codec=cd, defMode=defm, maxChunkSize=chunk),
+                                  finding=fid)
+                    ctx.stats['prop_fail:' + (fid or 'unexplained')] += 1
+                subs.append(('%s bare-value encoder defMode=%s maxChunkSize=%d' % (cd, defm, chunk),
+                             'nbytes_code (encode_py %s %s %d T p) %s' % (cd, cbool(defm), chunk, I.coq_res_bytes(b))))
+        elif has_any:
+            ctx.stats['equiv_skipped:ANY'] += 1
+        # a tree with a key missing / one alternative too many: decoder and encoders against the model
+        pm_lit = 'PNone'
+        mt = mutated_tree(ctx.rng, g, T, v) if e[0] == 'ok' and not search_only else None
+        if mt is not None:
+            raw_m, what_m = mt
+            ctx.stats['mutated_tree:' + what_m.split(' ')[0]] += 1
+            pm_lit = coq_py(canon(raw_m))
+            dm = guarded(lambda: U.absval_top(nat_dec.decode(raw_m, asn1Spec=U.build_type(T)), T))
+            subs.append(('native decoder, %s' % what_m, 'natdec_code T (of_native T pm) %s' % coq_res(dm, U.coq_aval)))
+            if not has_any:
+                for cd in ('BER', 'DER'):
+                    bm = I.run_encode(cd, raw_m, asn1Spec=U.build_type(T))
+                    subs.append(('%s bare-value encoder, %s' % (cd, what_m),
+                                 'nbytes_code (encode_py %s true 0 T pm) %s' % (cd, I.coq_res_bytes(bm))))
+        if not search_only:
+            exprs.append('let T := %s in let v := %s in let p := %s in let pm := %s in codes_max [%s]'
+                         % (cty, cval, p_lit, pm_lit, '; '.join(s for _, s in subs)))
+            meta.append((m, cty, cval, p_lit, pm_lit, subs))
+        if e[0] == 'ok' and len(ctx.samples) < 4 and T[0] in ('seq', 'set', 'choice', 'exp') and how != 'generated':
+            ctx.sample({'type': T, 'value': v, 'native': repr(nat_enc.encode(U.build_value(T, v)))[:300]})
     if search_only or not exprs:
         return
     codes = core.coq_codes('c17', IMPORTS, exprs)
